@@ -55,6 +55,7 @@ def run_history(case, stats=None):
         if stats is not None:
             stats[key] = stats.get(key, 0) + n
     plt.close('all')
+    plt.switch_backend('agg')
     matplotlib.rcdefaults()
     chunks = []
     for scene, meta in zip(case['scenes'], case['metas']):
@@ -83,6 +84,12 @@ def run_history(case, stats=None):
                     fig.add_subplot(111).plot([0, 1], [0, op[1]])
                     user_figs.append(fig.number)
                     bump('fault.user_owned_figure_open')
+                    continue
+                if kind == 'user_backend':
+                    # the user's own (non-interactive) backend choice; part of rcParams
+                    plt.switch_backend(op[1])
+                    user_rc['backend'] = True
+                    bump(f'probe.user_backend_{op[1]}')
                     continue
                 if kind == 'set_style':
                     from ampycloud import dynamic
@@ -206,6 +213,7 @@ def run_history(case, stats=None):
                         'detail': f'user figures {user_figs}, open {plt.get_fignums()}'}
         finally:
             plt.close('all')
+            plt.switch_backend('agg')
             matplotlib.rcdefaults()
             from ampycloud import dynamic as _dyn
             _dyn.AMPYCLOUD_PRMS['MPL_STYLE'] = 'base'
@@ -256,6 +264,8 @@ def replay(case):
 def gen_ops(rng, n_chunks):
     ops = []
     n_stems = 0
+    if rng.random() < 0.35:     # the user works with another non-interactive backend
+        ops.append(['user_backend', rng.choice(['svg', 'pdf', 'ps', 'template'])])
     if rng.random() < 0.3:      # a plot under a LaTeX style earlier in the same process
         ops += [['set_style', rng.choice(['latex', 'metsymb'])],
                 ['plot', rng.randrange(n_chunks), rng.randrange(4), 0, 0, 0, 0, None, 'default'],
